@@ -213,4 +213,94 @@ theorem inferShape_drops_trailing_row :
   · simp [inferShape]
   · rfl
 
+/-! ## `get_qubo` as a partial operation: it succeeds exactly on well-shaped data, and then returns the pair
+    the energy identity `getQubo_energy` speaks about -/
+
+/-- on well-shaped data `get_qubo` returns `(quboQ ρ, quboK ρ)` for the given, else the default, weight -/
+theorem getQubo_ok_eq (d : MPData) (suff : ℚ) (feas : Bool) (rho? : Option ℚ) (h : d.wellShaped = true) :
+    d.getQubo suff feas rho? =
+      .ok (d.quboQ (rho?.getD (defaultRho suff feas)) feas, d.quboK (rho?.getD (defaultRho suff feas))) := by
+  unfold MPData.getQubo
+  rw [if_pos h]
+
+/-- the only error is the shape error, raised exactly on ill-shaped data -/
+theorem getQubo_error_of_not_wellShaped (d : MPData) (suff : ℚ) (feas : Bool) (rho? : Option ℚ)
+    (h : d.wellShaped = false) : d.getQubo suff feas rho? = .error Err.shape := by
+  unfold MPData.getQubo
+  rw [if_neg (by simp [h])]
+
+theorem getQubo_error_iff (d : MPData) (suff : ℚ) (feas : Bool) (rho? : Option ℚ) :
+    (∃ e, d.getQubo suff feas rho? = .error e) ↔ d.wellShaped = false := by
+  cases h : d.wellShaped with
+  | false => exact ⟨fun _ => rfl, fun _ => ⟨_, getQubo_error_of_not_wellShaped d suff feas rho? h⟩⟩
+  | true =>
+    rw [getQubo_ok_eq d suff feas rho? h]
+    exact ⟨fun ⟨e, he⟩ => (by cases he), fun hf => (by cases hf)⟩
+
+/-- `get_qubo` succeeds iff the data are well shaped -/
+theorem getQubo_ok_iff (d : MPData) (suff : ℚ) (feas : Bool) (rho? : Option ℚ) :
+    (∃ Q k, d.getQubo suff feas rho? = .ok (Q, k)) ↔ d.wellShaped = true := by
+  cases h : d.wellShaped with
+  | true => exact ⟨fun _ => rfl, fun _ => ⟨_, _, getQubo_ok_eq d suff feas rho? h⟩⟩
+  | false =>
+    rw [getQubo_error_of_not_wellShaped d suff feas rho? h]
+    exact ⟨fun ⟨_, _, he⟩ => (by cases he), fun hf => (by cases hf)⟩
+
+/-- **the energy identity for what `get_qubo` returns**: whenever the call succeeds with `(Q, k)`, for every
+    binary `x`: `xᵀQx + k = objective(x) + ρ·penalty(x)` with `ρ` the given / default weight -/
+theorem getQubo_ok_energy (d : MPData) (suff : ℚ) (feas : Bool) (rho? : Option ℚ) (Q : Mat) (k : ℚ)
+    (h : d.getQubo suff feas rho? = .ok (Q, k)) (x : Vec) (hx : IsBin d.n x) :
+    quad d.n Q x + k
+      = (if feas then 0 else d.objective x) + rho?.getD (defaultRho suff feas) * d.penalty x := by
+  have hw : d.wellShaped = true := (getQubo_ok_iff d suff feas rho?).1 ⟨Q, k, h⟩
+  rw [getQubo_ok_eq d suff feas rho? hw] at h
+  simp only [Except.ok.injEq, Prod.mk.injEq] at h
+  obtain ⟨rfl, rfl⟩ := h
+  exact getQubo_energy d _ feas x hx
+
+/-- arc-based `get_qubo` is total on every consistent graph, any grid, both modes, any weight -/
+theorem arc_getQubo_ok (I : ArcInst) (hg : C15.Inv I.g) (feas : Bool) (rho? : Option ℚ) :
+    ∃ Q k, I.data.getQubo I.suffPenalty feas rho? = .ok (Q, k) :=
+  ⟨_, _, getQubo_ok_eq I.data I.suffPenalty feas rho? (arc_wellShaped I hg)⟩
+
+/-- path-based `get_qubo` is total on every well-formed pool (`PathWF` follows from `C06.PoolInv`, see C06b) -/
+theorem path_getQubo_ok_of_wf (P : PathInst) (hwf : PathWF P) (feas : Bool) (rho? : Option ℚ) :
+    ∃ Q k, P.data.getQubo P.suffPenalty feas rho? = .ok (Q, k) :=
+  ⟨_, _, getQubo_ok_eq P.data P.suffPenalty feas rho? (path_wellShaped P hwf)⟩
+
+/-- sequence-based `get_qubo` is total as soon as there are at least three positions -/
+theorem seq_getQubo_ok (I : SeqInst) (hL : 3 ≤ I.L) (feas : Bool) (rho? : Option ℚ) :
+    ∃ d Q k, I.data = some d ∧ d.getQubo I.suffPenalty feas rho? = .ok (Q, k) := by
+  obtain ⟨d, hd⟩ := seq_data_total I hL
+  exact ⟨d, _, _, hd, getQubo_ok_eq d I.suffPenalty feas rho? (seq_wellShaped I d hd)⟩
+
+/-- non-vacuity: a two-node graph with both arcs satisfies `C15.Inv`, so the arc-based `get_qubo` on the grid
+    `[0, 1, 2]` succeeds (and on ill-shaped data the call does fail) -/
+def epG : Graph :=
+  { nodes := [⟨"d", 0, 0, some 10⟩, ⟨"a", 1, 0, some 5⟩],
+    arcs := [((0, 1), ⟨"d", "a", 1, 1⟩), ((1, 0), ⟨"a", "d", 1, 2⟩)],
+    cap := some 1, init := some 1 }
+
+theorem epG_inv : C15.Inv epG where
+  nodup := by decide +kernel
+  nodesOk := by decide +kernel
+  keysNodup := by decide +kernel
+  filed := by
+    intro e he
+    have : e = ((0, 1), ⟨"d", "a", 1, 1⟩) ∨ e = ((1, 0), ⟨"a", "d", 1, 2⟩) := by
+      simpa [epG] using he
+    rcases this with rfl | rfl
+    · exact ⟨⟨"d", 0, 0, some 10⟩, ⟨"a", 1, 0, some 5⟩, by decide +kernel, by decide +kernel, rfl, rfl,
+        by decide +kernel⟩
+    · exact ⟨⟨"a", 1, 0, some 5⟩, ⟨"d", 0, 0, some 10⟩, by decide +kernel, by decide +kernel, rfl, rfl,
+        by decide +kernel⟩
+
+example : (∃ Q k, ({ g := epG, T := [0, 1, 2] } : ArcInst).data.getQubo
+      ({ g := epG, T := [0, 1, 2] } : ArcInst).suffPenalty false none = .ok (Q, k)) ∧
+    0 < ({ g := epG, T := [0, 1, 2] } : ArcInst).data.n ∧
+    (∃ e, ({ n := 1, m := 1, A := [(1, 0, 1)], b := [1], R := [], c := [0], Qobj := [] } : MPData).getQubo
+      0 false none = .error e) :=
+  ⟨arc_getQubo_ok { g := epG, T := [0, 1, 2] } epG_inv false none, by decide +kernel,
+    (getQubo_error_iff _ _ _ _).2 (by decide +kernel)⟩
+
 end Vrp.C02
